@@ -113,7 +113,9 @@ def check_one(fn, c, args, env, limit=5.0):
             signal.setitimer(signal.ITIMER_REAL, 0)
             signal.signal(signal.SIGALRM, old)
     except Timeout:
-        return {"observed": "did not return within %.0f s" % limit, "clause": "termination"}
+        if c.get("terminates_within_s"):
+            return {"observed": "did not return within %.0f s" % limit, "clause": "termination"}
+        return None          # slow is not wrong: inconclusive for this input
     except Exception as e:  # noqa
         name = type(e).__name__
         if name in c.get("raises", {}) and (c["raises"][name] is None or expect_raise == name):
@@ -145,6 +147,8 @@ def search(req):
     for n in names:
         if n in req.get("split", {}):
             pools.append([req["split"][n]])
+        elif n in c.get("candidates", {}):
+            pools.append(c["candidates"][n])
         else:
             pools.append(candidates(c["params"][n]))
     tried = 0
